@@ -9,6 +9,7 @@ CONSTANTS
   MaxParse = 1
   Family = "c11"
   Reconfigure = FALSE
+  Small = FALSE
   Emit = FALSE
 INVARIANTS
   Inv_ExpRejects
